@@ -11,6 +11,7 @@ import (
 	"encoding/json"
 	"flag"
 	"fmt"
+	"go/types"
 	"os"
 	"sort"
 
@@ -41,6 +42,58 @@ func loadAnchorCallers() map[string][]string {
 		_ = json.Unmarshal(anchorCallersJSON, &m)
 	}
 	return m
+}
+
+// anchor_fields.json: the "Type.field" names of the struct types declared in the production
+// packages of the reference tree.  A field that is not listed is a refactoring artefact
+// (a parameter promoted to receiver state): a read of it resolves to what is stored into it.
+//
+//go:embed anchor_fields.json
+var anchorFieldsJSON []byte
+
+var refFields map[string]bool
+
+func loadAnchorFields() map[string]bool {
+	m := map[string]bool{}
+	var l []string
+	if len(anchorFieldsJSON) > 0 {
+		_ = json.Unmarshal(anchorFieldsJSON, &l)
+	}
+	for _, f := range l {
+		m[f] = true
+	}
+	return m
+}
+
+// structFields lists Type.field for every named struct type of the production packages.
+func structFields(p *Prog) []string {
+	set := map[string]bool{}
+	for _, pk := range p.SSA.AllPackages() {
+		rel, ok := relPkg(pk.Pkg)
+		if !ok || !prodPkgs[rel] {
+			continue
+		}
+		sc := pk.Pkg.Scope()
+		for _, nm := range sc.Names() {
+			tn, ok := sc.Lookup(nm).(*types.TypeName)
+			if !ok {
+				continue
+			}
+			st, ok := tn.Type().Underlying().(*types.Struct)
+			if !ok {
+				continue
+			}
+			for i := 0; i < st.NumFields(); i++ {
+				set[tn.Name()+"."+st.Field(i).Name()] = true
+			}
+		}
+	}
+	var out []string
+	for f := range set {
+		out = append(out, f)
+	}
+	sort.Strings(out)
+	return out
 }
 
 // staticCallers computes the same table for the loaded program.
@@ -115,6 +168,7 @@ func init() {
 		repo := fs.String("repo", "/repo", "")
 		params := fs.Bool("params", false, "print the parameter-name table instead")
 		callers := fs.Bool("callers", false, "print the static-caller table instead")
+		fields := fs.Bool("fields", false, "print the struct-field table instead")
 		fs.Parse(args)
 		saved := anchorsJSON
 		anchorsJSON = nil
@@ -123,6 +177,11 @@ func init() {
 		if err != nil {
 			fmt.Fprintln(os.Stderr, err)
 			return 2
+		}
+		if *fields {
+			b, _ := json.MarshalIndent(structFields(p), "", " ")
+			fmt.Println(string(b))
+			return 0
 		}
 		if *callers {
 			b, _ := json.MarshalIndent(staticCallers(p), "", " ")
